@@ -285,8 +285,11 @@ impl FaultyDb {
         self.gate(DbKey::Basic(address))?;
         let i = self.0.borrow();
         let info = i.disk.info(&address, !i.lazy_code);
+        // an empty account that still has storage (EIP-7610 case) exists in the trie: a real
+        // database cannot report it as missing
+        let has_storage = i.disk.has_storage(&address);
         Ok(match info {
-            Some(inf) if i.empty_as_none && i.state_clear && inf.is_empty() => None,
+            Some(inf) if i.empty_as_none && i.state_clear && inf.is_empty() && !has_storage => None,
             x => x,
         })
     }
